@@ -35,3 +35,12 @@ CLAIMS['C08'] = dict(
        "a failing context marshaler yields exactly `null` plus one error; Array/FieldSet writers follow the JSON array/object typestate for any length.",
   note=COMMON_NOTE + "Assumed: UTF-8 decoder axioms (A-utf8), io.Writer implementations neither panic nor touch gqlgen's heap, strconv formats decimal values. "
        "Time/Duration/UUID/Map/Any/Omittable and float text round-trip are not decided. The step from the typestate to 'an RFC 8259 parser decodes the original' is checked only by the replay oracle.")
+
+CLAIMS['C10'] = dict(
+  technique="contract-based deductive verification (gocv: WP/symbolic-execution VCs over go/ast of the real functions incl. panic/defer paths, ghost counters, SMT-discharged)",
+  text="For every request body / upload map / websocket start payload: every implicit panic site (nil dereference, failed type assertion, index, nil-map write) in gqlgen's own code of "
+       "POST/GET/GRAPHQL/UrlEncodedForm/SSE/MultipartMixed/MultipartForm.Do, UrlEncodedForm.parse*, wsConnection.subscribe and RawParams.AddUpload is a discharged obligation "
+       "(AddUpload fully nopanic for any variables tree, key and path); CreateOperationContext is only called with non-nil parameters (JSON null bodies); in MultipartForm.Do the body is read only "
+       "after the size-limited reader is installed and every created temp file has its removal deferred before anything else can fail (ghost counters, loop invariant); the websocket subscription goroutine lets no panic escape.",
+  note=COMMON_NOTE + "net/http, mime/multipart, os, io, encoding/json, gorilla/websocket trusted not to panic on client bytes; stable-field assumption for wsConnection.active/exec; "
+       "bytesReader and the websocket message tables are not yet under contract; delivery of exact upload bytes is not decided.")
